@@ -524,8 +524,10 @@ def finish(rep, explanation):
     for k in known:
         if k.get("status") == "known" and (k["rule"], k["key"]) not in seen_known:
             rep.notes.append("known finding %s %s did not fire on this tree" % (k["rule"], k["key"]))
-    os.makedirs(os.path.join(VERIF, "evidence"), exist_ok=True)
-    os.makedirs(os.path.join(VERIF, "replays"), exist_ok=True)
+    # runs against another checkout (mutation self-tests, --root) must not overwrite the evidence of /repo
+    outbase = VERIF if REPO == "/repo" else os.environ.get("VERIF_OUT", os.path.join(os.environ.get("TMPDIR", "/tmp"), "xverif-out"))
+    os.makedirs(os.path.join(outbase, "evidence"), exist_ok=True)
+    os.makedirs(os.path.join(outbase, "replays"), exist_ok=True)
     ev = {
         "property_id": rep.prop,
         "tier": rep.tier,
@@ -550,9 +552,9 @@ def finish(rep, explanation):
         "violations": len(real),
     }
     ev["coverage"].update(rep.extra)
-    json.dump(ev, open(os.path.join(VERIF, "evidence", rep.prop + ".json"), "w"), indent=1)
+    json.dump(ev, open(os.path.join(outbase, "evidence", rep.prop + ".json"), "w"), indent=1)
     if real:
-        rp = os.path.join(VERIF, "replays", "%s.json" % rep.prop)
+        rp = os.path.join(outbase, "replays", "%s.json" % rep.prop)
         json.dump({"property": rep.prop, "violations": real}, open(rp, "w"), indent=1)
         for v in real[:50]:
             print("  violation: rule=%s instance=%s at %s: %s" % (v["rule"], v["key"], v["where"], v["what"]))
